@@ -214,6 +214,7 @@ type perr =
 | EAttribute
 | EExpectedEq
 | EUnknown
+| ENotSettable
 | ECodec
 
 type 'a res =
@@ -260,23 +261,25 @@ val parse_directive_value :
   (str * dtype) list -> (n -> n option) -> (str -> n) -> bool -> str -> str
   -> value res
 
+val settable : (str * dtype) list -> str -> bool
+
 val expand_all :
-  (str * dtype) list -> (n -> n option) -> (str -> n) -> bool -> str -> str
-  -> str list -> bool -> dict -> (bool * dict) res
+  (str * dtype) list -> (n -> n option) -> (str -> n) -> bool -> bool -> str
+  -> str -> str list -> bool -> dict -> (bool * dict) res
 
 val is_list_type : (str * dtype) list -> str -> bool
 
 val parse_item :
   (str * dtype) list -> str list -> (n -> n option) -> (str -> n) -> bool ->
-  bool -> dict -> str -> dict res
+  bool -> bool -> dict -> str -> dict res
 
 val parse_items :
   (str * dtype) list -> str list -> (n -> n option) -> (str -> n) -> bool ->
-  bool -> dict -> str list -> dict res
+  bool -> bool -> dict -> str list -> dict res
 
 val parse_directive_list :
   (str * dtype) list -> str list -> (n -> n option) -> (str -> n) -> bool ->
-  bool -> dict -> str -> dict res
+  bool -> bool -> dict -> str -> dict res
 
 type kind =
 | KFunc
@@ -363,7 +366,8 @@ val g_py_int : str -> z option
 
 val g_parse_value : (str * n) list -> bool -> str -> str -> value res
 
-val g_parse_list : (str * n) list -> bool -> bool -> dict -> str -> dict res
+val g_parse_list :
+  bool -> (str * n) list -> bool -> bool -> dict -> str -> dict res
 
 val g_scope_ok : str -> str -> bool
 
